@@ -486,9 +486,24 @@ private:
                     case 't':
                         output.push_back('\t');
                         break;
-                    case 'u':
-                        output.append(parse_unicode_escape());
+                    case 'u': {
+                        unsigned int codepoint = parse_unicode_escape();
+                        if (codepoint >= 0xD800 && codepoint <= 0xDBFF) {
+                            if (pos_ + 2 > input_.size() || input_[pos_] != '\\' || input_[pos_ + 1] != 'u') {
+                                throw std::runtime_error("Unpaired surrogate in unicode escape");
+                            }
+                            pos_ += 2;
+                            const unsigned int low = parse_unicode_escape();
+                            if (low < 0xDC00 || low > 0xDFFF) {
+                                throw std::runtime_error("Unpaired surrogate in unicode escape");
+                            }
+                            codepoint = 0x10000 + ((codepoint - 0xD800) << 10) + (low - 0xDC00);
+                        } else if (codepoint >= 0xDC00 && codepoint <= 0xDFFF) {
+                            throw std::runtime_error("Unpaired surrogate in unicode escape");
+                        }
+                        append_utf8(codepoint, output);
                         break;
+                    }
                     default:
                         throw std::runtime_error("Invalid escape sequence in string");
                 }
@@ -499,7 +514,7 @@ private:
         return output;
     }
 
-    std::string parse_unicode_escape() {
+    unsigned int parse_unicode_escape() {
         if (pos_ + 4 > input_.size()) {
             throw std::runtime_error("Truncated unicode escape");
         }
@@ -518,9 +533,7 @@ private:
                 throw std::runtime_error("Invalid unicode escape");
             }
         }
-        std::string utf8;
-        append_utf8(codepoint, utf8);
-        return utf8;
+        return codepoint;
     }
 
     static void append_utf8(unsigned int codepoint, std::string& out) {
